@@ -365,7 +365,9 @@ def cond_facts(ctx, em, owner):
     """Statement-level decisions of the emitter variant as substitutions on interpreter terms (e.g. self.stream is None)."""
     extra = {}
     for cnd, pol in em.conds:
-        # `self.x is not None` decided False  ->  self.x is None
+        # `self.x is not None` decided False  ->  self.x is None   (either operand order)
+        if isinstance(cnd, ast.Compare) and len(cnd.ops) == 1 and isinstance(cnd.left, ast.Constant) and cnd.left.value is None:
+            cnd = ast.Compare(left=cnd.comparators[0], ops=cnd.ops, comparators=[cnd.left])
         if isinstance(cnd, ast.Compare) and len(cnd.ops) == 1 and isinstance(cnd.ops[0], (ast.IsNot, ast.Is)) and isinstance(cnd.comparators[0], ast.Constant) \
                 and cnd.comparators[0].value is None and isinstance(cnd.left, ast.Attribute) and isinstance(cnd.left.value, ast.Name) and cnd.left.value.id == "self":
             is_none = (isinstance(cnd.ops[0], ast.Is)) == pol
